@@ -610,6 +610,11 @@ def value_streams(ctx, budget):
                     elif not np.allclose(pv, direct, rtol=0, atol=1e-9 * scale):
                         ctx.fail(dict(case, maxdiff=float(np.max(np.abs(pv - direct)))), "parse(expr).v differs",
                                  "equal to the direct computation (1e-9)", where="symbol-value")
+                    elif not np.array_equal(pv, direct):
+                        # the statement says "exactly": same operations, same nesting, same float arithmetic
+                        ctx.extra["symbol_inexact"] = ctx.extra.get("symbol_inexact", 0) + 1
+                        ctx.fail(dict(case, maxdiff=float(np.max(np.abs(pv - direct)))), "parse(expr).v differs in the last bits",
+                                 "bitwise equal to the direct computation (same operations, same nesting)", where="symbol-value-exact")
                     # oracle 2: PointerSymbol.evaluate()
                     try:
                         ev = se.evaluate().v
